@@ -447,7 +447,9 @@ def evaluate__sum(self: XPathFunction, context: ta.ContextType = None) -> ta.One
         zero = 0 if len(self) == 1 else self.get_argument(context, index=1)
         return [] if zero is None else zero
 
-    if all(isinstance(x, (decimal.Decimal, int)) for x in values):
+    if any(isinstance(x, bool) for x in values) and self.parser.version != '1.0':
+        raise self.error('FORG0006', 'cannot apply fn:sum() to xs:boolean values')
+    elif all(isinstance(x, (decimal.Decimal, int)) for x in values):
         result = sum(values) if len(values) > 1 else values[0]
     elif all(isinstance(x, DayTimeDuration) for x in values) or \
             all(isinstance(x, YearMonthDuration) for x in values):
